@@ -252,7 +252,9 @@ def decodeBody : Bytes → Option Bytes
   | c :: r =>
     if c ≠ 92 then (decodeBody r).map (c :: ·)
     else match r with
-      | [] => none
+      -- a lone backslash at the end of the body (possible after a `\u` whose four "digits" swallowed
+      -- a backslash): `input_pointer[1]` is then the closing quote itself, handled as `\"`
+      | [] => some [34]
       | e :: r1 =>
         if e = 98 then (decodeBody r1).map (8 :: ·)
         else if e = 102 then (decodeBody r1).map (12 :: ·)
@@ -711,6 +713,33 @@ def setAt (t : JVal) (path : List Step) (v' : JVal) : JVal :=
       | .obj ms, .key k => .obj (setMember k c' ms)
       | .arr xs, .idx i => .arr (xs.set i c')
       | _, _ => t
+
+/-! ### aws_json_const_iterate_object / aws_json_const_iterate_array
+
+The callback is modelled by the two ways it can influence the loop: it returns an error at its
+`fail`-th invocation (0-based), or clears `*out_should_continue` at its `stop`-th invocation.  The
+result is the list of children the callback saw, in order, and whether AWS_OP_SUCCESS was returned. -/
+
+def iterateFrom {α : Type} (stop fail : Option Nat) : Nat → List α → List α × Bool
+  | _, [] => ([], true)
+  | i, x :: r =>
+    if fail = some i then ([x], false)            -- callback failed: goto done (AWS_OP_ERR)
+    else if stop = some i then ([x], true)         -- !should_continue: break
+    else
+      let p := iterateFrom stop fail (i + 1) r
+      (x :: p.1, p.2)
+
+/-- `aws_json_const_iterate_object` -/
+def iterateObject (o : JVal) (stop fail : Option Nat) : Except Err (List (Bytes × JVal) × Bool) :=
+  match o with
+  | .obj ms => .ok (iterateFrom stop fail 0 ms)
+  | _ => .error .invalidArgument
+
+/-- `aws_json_const_iterate_array` (the index handed to the callback is the position in the list) -/
+def iterateArray (a : JVal) (stop fail : Option Nat) : Except Err (List JVal × Bool) :=
+  match a with
+  | .arr xs => .ok (iterateFrom stop fail 0 xs)
+  | _ => .error .invalidArgument
 
 /-! ### constructors and getters of json.c -/
 
